@@ -471,7 +471,7 @@ def c06(ctx, rep):
     # Memoize on left-recursive grammars (templates with -support-left-recursion): same success/failure and value
     # (error lists: known finding C08-MEMO-DISCARDED-ERRS, decided by the C08 check)
     n = ctx.q(150, 3000)
-    lines, pretty = corr.generate(ctx.sc, ctx.gen(), "c08", ctx.seed, n, tag="c06lr")
+    lines, pretty = corr.generate(ctx.sc, ctx.gen(), "c08ns", ctx.seed, n, tag="c06lr")
     lines = [l for l in lines if corr.case_opts(l)["maxexpr"] in (0, 3000)]
     twins = [t for t in (flip_memo(l) for l in lines) if t]
     base = {corr.case_id(t)[:-2] for t in twins}
